@@ -161,6 +161,7 @@ func LoadProgram(repo string, patterns []string, specDir string, tags string) (*
 			p.addFile(cf)
 		}
 	}
+	p.resolveAs()
 	return p, nil
 }
 
@@ -199,6 +200,27 @@ func (p *Program) addFile(cf *ContractFile) {
 		default:
 			p.Types[fkey(pkg, c.Kind+" "+name)] = c
 		}
+	}
+}
+
+// resolveAs expands `option as <functype>` after all files are loaded.
+func (p *Program) resolveAs() {
+	for _, c := range p.Contracts {
+		name, ok := c.Options["as"]
+		if !ok {
+			continue
+		}
+		ft := p.Types[fkey(c.Pkg, "functype "+name)]
+		if ft == nil {
+			continue
+		}
+		c.Requires = append(append([]*Clause(nil), ft.Requires...), c.Requires...)
+		c.Ensures = append(append([]*Clause(nil), ft.Ensures...), c.Ensures...)
+		c.Modifies = append(append([]*Clause(nil), ft.Modifies...), c.Modifies...)
+		if c.Mode == "" {
+			c.Mode = ft.Mode
+		}
+		delete(c.Options, "as")
 	}
 }
 
